@@ -53,6 +53,7 @@ def setup(ctx):
     ctx.require("monitor", "table_comparisons", 400)
     ctx.require("monitor", "l0_steps", 2000)
     ctx.require("monitor", "many_hosts_verifications", 3000)
+    ctx.require("monitor", "near_miss_pins_verified", 200)
     ctx.require("monitor", "redirect_hops_checked", 20)
 
 
@@ -222,6 +223,68 @@ def run_l0_many_hosts(ctx):
             for c in names:
                 ask(h, c, "after a re-trust or revoke through the same object")
         ctx.case(("L0-many-hosts", n > 4096, n > 65536), True, sample={"level": "L0", "hosts": n, "verifications": "see counter many_hosts_verifications"})
+    finally:
+        shutil.rmtree(tmp, ignore_errors=True)
+
+
+def run_l0_near_miss_pins(ctx):
+    """A pin that is ALMOST the fingerprint of the certificate presented - one hex digit off at the front, in the middle,
+    at the end; two leading digits swapped; one digit missing - reaches the store through an import (a hand-edited or
+    damaged backup).  It is a different pin: the certificate is refused as changed, however the two strings are compared."""
+    import tomli_w
+    from cryptography import x509
+
+    from nauyaca.security.tofu import TOFUDatabase
+
+    tmp = tempfile.mkdtemp(prefix="vf-c03-near-")
+    try:
+        # certificates whose fingerprints begin with every hex digit (comparisons that trim or fold by character class
+        # behave differently per leading digit)
+        idents, seen, i = [], set(), 0
+        while len(seen) < 16 and i < 400:
+            idt = certs.identity(f"c03-lead-{i}", "ec")
+            lead = idt.fingerprint.split(":", 1)[1][0]
+            if lead not in seen:
+                seen.add(lead)
+                idents.append(idt)
+            i += 1
+        for n, idt in enumerate(idents):
+            cert = x509.load_der_x509_certificate(idt.der)
+            hexd = idt.fingerprint.split(":", 1)[1]
+            others = [d for d in "0123456789abcdef"]
+            near = {}
+            for d in others:
+                if d != hexd[0]:
+                    near[f"first-digit={d}"] = d + hexd[1:]
+            near["second-digit"] = hexd[0] + ("0" if hexd[1] != "0" else "1") + hexd[2:]
+            near["middle-digit"] = hexd[:31] + ("0" if hexd[31] != "0" else "1") + hexd[32:]
+            near["last-digit"] = hexd[:-1] + ("0" if hexd[-1] != "0" else "1")
+            if hexd[0] != hexd[1]:
+                near["first-two-swapped"] = hexd[1] + hexd[0] + hexd[2:]
+            near["first-digit-doubled"] = hexd[0] + hexd
+            near["first-digit-missing"] = hexd[1:]
+            for nname, fp_hex in near.items():
+                dbp = os.path.join(tmp, f"n{n}-{nname.replace('=', '_')}.db")
+                db = TOFUDatabase(Path(dbp))
+                f = os.path.join(tmp, "near.toml")
+                with open(f, "wb") as fh:
+                    tomli_w.dump({"hosts": {"k": {"hostname": "near.example", "port": 1965, "fingerprint": "sha256:" + fp_hex, "first_seen": "2020-01-01T00:00:00+00:00", "last_seen": "2020-01-01T00:00:00+00:00"}}}, fh)
+                try:
+                    db.import_toml(Path(f), merge=False)
+                except Exception:  # noqa: BLE001
+                    ctx.count("outcome", "near-miss-pin-refused-by-import")
+                    continue
+                rows = dump(dbp)
+                if not rows:
+                    ctx.count("outcome", "near-miss-pin-not-imported")
+                    continue
+                r = tuple(db.verify("near.example", 1965, cert))
+                ctx.count("monitor", "l0_steps")
+                ctx.count("monitor", "near_miss_pins_verified")
+                wit = {"pinned": rows[0][2], "presented": idt.fingerprint, "differs_by": nname, "verify_returned": r}
+                if rows[0][2] != idt.fingerprint and r != (False, "changed"):
+                    ctx.violation(f"verify-wrong:changed:near-miss-pin:{nname.split('=')[0]}", f"the pin differs from the presented certificate's fingerprint ({nname}), yet verify returned {r}", wit)
+                ctx.case(("L0-near-miss", nname.split("=")[0], hexd[0], r), True, sample=wit)
     finally:
         shutil.rmtree(tmp, ignore_errors=True)
 
@@ -1026,3 +1089,5 @@ def run(ctx):
         run_store_unavailable_at_construction(ctx)
     if ctx.mine(7) or ctx.nshards == 1:
         run_l0_many_hosts(ctx)
+    if ctx.mine(8) or ctx.nshards == 1:
+        run_l0_near_miss_pins(ctx)
